@@ -570,12 +570,17 @@ struct Run {
         c.op("tree(%s keys, cmp=%d%s, universe=%zu)", strkeys ? "string" : "binary", g_cmpkind, setcmp ? "" : " default", U);
         g_cmp_count = 0; g_cmp_budget = 0; g_cmp_jb_armed = false;
         vf_ledger_on = 1;
-        t = qtreetbl(0);
-        if (!t) c.fail(FUNC, "tree:ctor", "qtreetbl(0) returned NULL");
+        int topt = s.chance(1, 4) ? QTREETBL_THREADSAFE : 0;   // a thread-safe table used by one thread behaves like a plain one
+        if (topt) c.tag("threadsafe_option_single_thread");
+        t = qtreetbl(topt);
+        if (!t) c.fail(FUNC, "tree:ctor", "qtreetbl(%d) returned NULL", topt);
+        if (c.mode == "C02" && !setcmp) setcmp = true;          // comparisons are counted through the user comparator
         if (setcmp) qtreetbl_set_compare(t, user_cmp);
         bool m1 = c.mode == "C01", m2 = c.mode == "C02", m3 = c.mode == "C03", m4 = c.mode == "C04";
         bool walks = m3 || m4 || c.mode == "C11" || c.mode == "C12";
-        if (walks && !setcmp) { setcmp = true; qtreetbl_set_compare(t, user_cmp); }   // budgeted comparator needed
+        // the budgeted comparator is needed where searches can spin (find_nearest); plain walks (C03) also run on the default comparator
+        if (walks && !setcmp && !(m3 && g_cmpkind == 0 && s.chance(1, 2))) { setcmp = true; qtreetbl_set_compare(t, user_cmp); }
+        if (!setcmp) c.tag("default_comparator");
         bool nearest = m3 || m4 || c.mode == "C11" || c.mode == "C12";
         // weights: put get remove size min max clear walk nearest bulk fullcompare
         std::vector<int> w = {30, 18, 24, 3, 4, 4, 1, 0, 0, 0, 2, 2, 2};
@@ -583,6 +588,7 @@ struct Run {
         if (m3) { w = {14, 3, 10, 1, 1, 1, 1, 16, 5, 0, 1, 1, 1}; }
         if (m4) { w = {14, 3, 10, 1, 1, 1, 1, 6, 22, 0, 1, 1, 1}; }
         if (walks && !m3 && !m4) { w[7] = 6; w[8] = 6; w[9] = 1; }
+        if (!setcmp) w[8] = 0;                                  // nearest-key searches need the budgeted comparator
         (void)nearest; (void)m1;
         int maxops = c.tier ? 5000 : 600;
         int ops = 0;
